@@ -1652,3 +1652,45 @@ def _c08x(fb, rep):
 
 
 RULES['C08'] = _c08x
+
+
+# ================================================================================================ twelfth batch (F143)
+def c12(fb, rep):
+    """R12.9: readLPF (both twins): a term `coefficient variable` is added to the vector under construction only after looking whether the vector already has
+    that variable (vec.pos(colidx)) - in the objective section as in the constraints section; otherwise a variable that occurs twice gives a vector with a
+    duplicate index and the last term wins.  (F143)"""
+    rep.rule('R12.9', 'LP-format reader: every vec.add(colidx, ..) is governed by a look-up vec.pos(colidx)', floor=4)
+    k = 0
+    for f in sorted(fb.funcs.values(), key=lambda g: (g.file, g.line, g.name)):
+        if not f.nodes or f.short != 'readLPF':
+            continue
+        for n in f.nodes:
+            if n.k == 'CXXMemberCallExpr' and n.short == 'add' and n.obj() is not None and render(strip(n.obj())) == 'vec' and len(n.args()) == 2:
+                idx = render(strip(n.args()[0]))
+                k += 1
+                tested = False
+                for a in f.ancestors(n):
+                    if a.k == 'IfStmt' and a.kid('cond') is not None:
+                        ct = render(a.kid('cond'))
+                        if re.search(r'vec\.pos\(%s\) (<|>=) 0' % re.escape(idx), ct):
+                            tested = True
+                        m = re.fullmatch(r'\(?(\w+) (<|>=) 0\)?', ct)
+                        if m and any(x.k == 'VarDecl' and str(x.n).split('::')[-1] == m.group(1) and re.search(r'vec\.pos\(%s\)' % re.escape(idx), render(x)) for x in f.nodes):
+                            tested = True
+                rep.check(tested, 'R12.9', '%s|vec.add(%s)#%d' % (f.name.replace('soplex::', '')[:40], idx, k), '%s:%d' % (f.file, n.l), 'vec.pos(%s) consulted' % idx,
+                          'vec.add(%s, val) without looking whether the vector already has that variable: for "x + x" the vector gets a duplicate index and the last term wins '
+                          '(objective) - the file is read as another LP without a message' % idx)
+    if k < 4:
+        raise AnalysisBroken('R12.9: only %d vec.add calls in readLPF' % k)
+
+
+_c12a = RULES.get('C12')
+
+
+def _c12(fb, rep):
+    if _c12a:
+        _c12a(fb, rep)
+    c12(fb, rep)
+
+
+RULES['C12'] = _c12
